@@ -1,4 +1,4 @@
-(* C03: semantic obligations for basis configurations 64 .. 127 of all_cfgs (20 gate kinds each) *)
+(* C03: semantic obligations (every canonical basis configuration) for the gate kinds of slice 1 *)
 From QV Require Import Model.Resolve Proofs.ResolveChkDefs.
-Lemma chk_sem_1 : sem_ok (slice 1) = true.
+Lemma chk_sem_1 : obls_ok (kslice 1) = true.
 Proof. vm_compute. reflexivity. Qed.
